@@ -72,6 +72,11 @@ CHECKS = {
          'Cache coherence of geometric factors after any setter order (bitwise vs fresh object), site budget in runs (non-negative, bounded, consumed by occupancy), per-step sanity of Rcrit/Gcrit/impingement/rate, reference formulas and identities at every visited state.',
          'k values and driving forces are those visited (sample, not sweep); N0 is configuration; the dislocation site type is exempt from N0-based clauses (kawin resolves it through the bulk branch: recorded as an observation in DESIGN.md). Known finding: negative barrier when R* is clamped on grain-boundary sites.',
          'DESIGN.md 4/C14'),
+ 'C17': ('exploration', 1200, 7200,
+         'deterministic simulation of evaluation histories of computeHomogenizationFunction on the real two-phase Fe-Cr-Ni database with a shared hash table (order, repeats, cache on/off/cleared, rule and post-process mode changing between evaluations); by-name reference post-processing; classical bound formulas on synthetic sets',
+         'Every evaluation of every history is compared with a by-phase-name reference applied to a cache-less fresh evaluation, repeated for idempotence, and the cached per-phase arrays are compared before/after; synthetic fully-defined sets check min/max, W_low<=HS_low<=HS_up<=W_up, permutation invariance, single-phase limit, labyrinth clauses and the rule formulas.',
+         'Bounds asserted for fully defined sets only (1e-6 relative, up to six decades); predefined(name) compared only where the named phase is stable; FCC-only mobility produced by removing the BCC callable.',
+         'DESIGN.md 4/C17'),
  'C18': ('exploration', 1200, 7200,
          'deterministic simulation of two coupled clocks: host precipitation model with StrengthModel and GrainGrowthModel (nested solver run per host step) attached; alignment/clock invariants after every host step; stand-alone grain-growth histories with taps on normalisation and drag; strength formulas as oracles at visited and generated points',
          'Coupled: one strength entry per host step and grain clock == host clock after every host step over 1-4 solve calls and both iterators. Grain growth: volume 1 after every step, bounded pre-normalisation drift, monotone mean size without pinning, drag never reverses/accelerates, frozen structure above the freezing level. Strength: non-negativity incl. r < ri and zeros, min rule, total >= parts and monotone, edge/screw limits.',
